@@ -49,10 +49,10 @@ FRAGMENT_TAGS = {'or_test', 'and_test', 'not_test', 'comparison', 'comp_op', 'co
 
 
 def run_translators(ctx: Ctx) -> tuple[bool, str]:
-	from translate import gen_grammar_ladder, gen_resolver_table
+	from translate import gen_decl_matchers, gen_grammar_ladder, gen_resolver_table
 	msgs = []
 	ok = True
-	for mod in (gen_grammar_ladder, gen_resolver_table):
+	for mod in (gen_grammar_ladder, gen_resolver_table, gen_decl_matchers):
 		try:
 			for rec in mod.generate():
 				if 'lexer' in rec:
@@ -638,6 +638,11 @@ class Gen:
 			value = self.expr(d) if rng.random() < 0.8 else ', '.join(self.expr(d - 1) for _ in range(2))
 			if rng.random() < 0.03:
 				targets += f' = {self.fresh("t")}'  # chained assignment (known finding group:chained-assignment)
+			elif ',' in targets and rng.random() < 0.08:
+				targets = targets.replace(', ', ', *', 1)  # starred target (known divergence canon:starred-target-star-dropped)
+			elif rng.random() < 0.015:
+				# a parenthesised / bracketed target list (known finding raise:MoveAssign.receivers:Errors.IllegalConvertion; rare: it aborts the comparison)
+				targets = rng.choice(['({})', '[{}]']).format(targets)
 			if rng.random() < 0.02 and ctx in ('func', 'method', 'loopfunc'):
 				value = rng.choice(['yield', '(yield)'])  # known divergence canon:bare-yield-read-as-name
 			return [self.line(ind, f'{targets} = {value}')]
@@ -1080,6 +1085,7 @@ MARK_WHAT = {
 	'canon:docstring-hoisted': 'a triple-double-quoted string statement that is not the first statement of a def/class body is moved into `comment` (only the last one is kept) and removed from `statements`',
 	'canon:bare-yield-read-as-name': 'x = yield / (yield): grammar.lark has no bare yield expression and does not reserve the word: it is read as a variable called yield (CPython: Yield)',
 	'canon:class-metaclass-dropped': 'class A(B, metaclass=M): the metaclass argument is in the lark tree but no node property exposes it (CPython: keywords=[metaclass=M])',
+	'canon:starred-target-star-dropped': 'a, *b = c: grammar.lark reads the `*` of a starred target but keeps no trace of it (`assign_namelist: expression ("," ["*"]? expression)*`): receivers [a, b]; CPython: [a, Starred(b)]',
 	'classify:method-without-self-name': 'a function of a class body whose first parameter is not called self is classified Function (Python: instance method whatever the name)',
 	'classify:staticmethod-taking-self': 'a @staticmethod whose first parameter is called self is classified Method (Python: plain function)',
 	'classify:classmethod-outside-class': '@classmethod on a def that is not in a class body is classified ClassMethod (Python: a decorated function / closure)',
@@ -1152,6 +1158,9 @@ class PyCanon:
 
 	def names_of_target(self, t: ast.expr, ctor: bool = False) -> list[str]:
 		elts = t.elts if isinstance(t, ast.Tuple) else [t]
+		if any(isinstance(e, ast.Starred) for e in elts):
+			self.mark('canon:starred-target-star-dropped', t)
+			elts = [e.value if isinstance(e, ast.Starred) else e for e in elts]
 		out = [self.expr(e, store=True) for e in elts]
 		# an instance variable is DECLARED by `self.<name> = …` / `self.<name>: T = …` written as a statement of the body of a
 		# function called `__init__`, `self.<name>` being the (first) target: exactly `Attribute(Name('self'), name)` — not a
@@ -1856,6 +1865,9 @@ STATEMENTS = {
 	'classify_constructor_agrees / classify_classMethod_agrees / classify_method_sound': 'the three formerly false statements, each with exactly the hypothesis it still needs (one / one / none)',
 	'classify_former_witnesses': 'the three old counter-example witnesses are classified as Python does',
 	'classify_func_counterexample': 'the unconditional statement is still false where match_feature goes by the name self (class function whose first parameter is not called self); raised by the search as classify:method-without-self-name',
+	'decl_matchers_facts': 'the string constants of DeclableMatcher as generated from primary.py today (re-decided when a tag or word changes)',
+	'decl_role_exact': 'for every position of a bare identifier in the modelled statement forms (targets of plain / annotated / class-variable / augmented assignments, for and comprehension targets, with-as, except-as, lambda and def parameters, def / class / imported names, keyword labels, attribute names, statement operands, anywhere deeper in an expression) below ANY enclosing context, the class given by the first-match dispatch has exactly the role Python gives the occurrence (binding / class-variable binding / use / label)',
+	'lexer_keywords': 'the word lists of the reference lexer are accounted for by the keyword facts generated from lark\'s LALR table',
 	'classify_name_param / classify_var_reference': 'parameter names are declarations exactly below typedparam; a var is a reference exactly when no DeclableMatcher pattern holds',
 }
 
@@ -1881,6 +1893,8 @@ def run(ctx: Ctx) -> int:
 		assumptions=[
 			'lark returns a derivation of grammar.lark (LALR construction and PythonIndenter are not modelled)',
 			'DeclableMatcher.is_decl_class_var: `endswith` on the joined parent path is modelled as equality of its last two tags (no tag of the grammar ends with another tag after a dot)',
+			'the LOGIC of each DeclableMatcher method is pinned by the digest of its ast skeleton (translate/gen_decl_matchers.py: a changed skeleton breaks the tie loudly); its string constants are generated data',
+			'decl_role_exact speaks about the path suffixes grammar.lark produces for the listed positions (NamePos.suffix, hand-written from the grammar rules; exercised by the classify stream and by the declaration/reference roles of the ast search)',
 			'the generated language leaves out only what one of the two parsers rejects or what CPython\'s ast cannot distinguish (list above class Gen); every construct both accept and read differently is generated and raised under its own key (MARK_WHAT)',
 		],
 		trusted=['CPython ast as the grouping oracle; pyTable transcribed from Grammar/python.gram, validated by stream pygroup',
